@@ -203,8 +203,8 @@ CHECKS['C08'] = dict(
          'close sweep sends nothing. REFUTED for abnormal channel endings (PAYLOAD after own CANCEL: KF-C08-channel-after-terminal). Tied to '
          'the code by comparing every frame a real endpoint queues with the model section by section on recorded legal histories, plus '
          'the per-stream protocol acceptor over emissions and prior receptions, client connects with requests issued while connecting, '
-         'and lease scenarios (KF-C08-lease-overtake). Partial: the acceptor (oracle) states the per-role frame-type table; the model '
-         'theorems cover it clause by clause rather than as one automaton refinement.',
+         'and lease scenarios (KF-C08-lease-overtake). The per-role frame-type table is also a theorem (C08_local_action_types) for local actions; ordering clauses '
+         '(nothing after the own terminal frame) are theorems per ending plus the acceptor as oracle.',
     design_ref='DESIGN.md section 6, C08',
     technique='Coq proof (emission theorems on the endpoint model, SETUP-first and id theorems) + in-Coq trace correspondence of emitted frames with a real endpoint; per-stream acceptor as oracle')
 
